@@ -192,16 +192,23 @@ def _random_points_boundary(main_domain, domain_a, domain_b, n, params, device):
         sclaed_n = _compute_boundary_ratio(
             main_domain, domain_a, domain_b, ith_params, n, device=device
         )
-        use_b = False  # to switch between sampling on a and b
         while len(ith_points) < n:
-            new_points = domains[use_b].boundary.sample_random_uniform(
-                n=sclaed_n[use_b], params=ith_params, device=device
-            )
-            _, repeat_params = main_domain._repeat_params(len(new_points), ith_params)
-            index_valid = torch.where(main_domain._contains(new_points, repeat_params))
-            ith_points = ith_points | new_points[index_valid[0],]
-            use_b = not use_b  # switch to other domain
-        random_points = random_points | ith_points[:n,]
+            # always sample on both boundaries (with the same density), so that
+            # the collected points stay uniform on the whole boundary
+            for use_b in (False, True):
+                new_points = domains[use_b].boundary.sample_random_uniform(
+                    n=sclaed_n[use_b], params=ith_params, device=device
+                )
+                _, repeat_params = main_domain._repeat_params(
+                    len(new_points), ith_params
+                )
+                index_valid = torch.where(
+                    main_domain._contains(new_points, repeat_params)
+                )
+                ith_points = ith_points | new_points[index_valid[0],]
+        # keep a random selection, not the first n (they are ordered by boundary)
+        selection = torch.randperm(len(ith_points), device=device)[:n]
+        random_points = random_points | ith_points[selection,]
     return random_points
 
 
